@@ -623,6 +623,49 @@ fn prefilter(args: &[String]) {
                 }
             }
         }
+        // A buffer recycled from an earlier shaping: the context digest of a call is built from the glyphs of THAT call.
+        // GSUB-only font (nothing after GSUB consumes anything): "xy" first, then "fi" in the recycled buffer.
+        {
+            let mut spec = FontSpec::basic(210);
+            spec.cmap = vec![(0x66, 100), (0x69, 101), (0x78, 30), (0x79, 31)];
+            spec.gsub = Some(Layout::single_feature(*b"liga", vec![Lookup::one(SubstSubtable::Ligature { coverage: Coverage::Glyphs(vec![100]), ligature_sets: vec![vec![Ligature { glyph: 200, components: vec![101] }]] })]));
+            let data = build(&spec);
+            for (first, second) in [("xy", "fi"), ("fi", "xy"), ("xyxy", "fifi"), ("", "fi")] {
+                let d1 = data.clone();
+                let res = catch(move || {
+                    let f = rustybuzz::Face::from_slice(&d1, 0).unwrap();
+                    let mut b = rustybuzz::UnicodeBuffer::new();
+                    b.push_str(first);
+                    let g1 = rustybuzz::shape(&f, &[], b);
+                    let mut b = g1.clear();
+                    b.push_str(second);
+                    let g2 = rustybuzz::shape(&f, &[], b);
+                    let recycled: Vec<u32> = g2.glyph_infos().iter().map(|i| i.glyph_id).collect();
+                    let mut b = rustybuzz::UnicodeBuffer::new();
+                    b.push_str(second);
+                    let g3 = rustybuzz::shape(&f, &[], b);
+                    let fresh: Vec<u32> = g3.glyph_infos().iter().map(|i| i.glyph_id).collect();
+                    (recycled, fresh)
+                });
+                shapes += 1;
+                gen_shapes += 1;
+                match res {
+                    Ok((recycled, fresh)) => {
+                        if fresh.contains(&200) {
+                            nontrivial += 1;
+                        }
+                        if recycled != fresh {
+                            diffs += 1;
+                            println!("diff font=generated:gsub-only-recycled-buffer req=[text={:?} after {:?}] on={:?} off={:?}", second, first, recycled, fresh);
+                        }
+                    }
+                    Err(e) => {
+                        diffs += 1;
+                        println!("diff font=generated:gsub-only-recycled-buffer req=[text={:?} after {:?}] on=panic {} off=-", second, first, e);
+                    }
+                }
+            }
+        }
         println!("prefilter-generated shapes={}", gen_shapes);
     }
     println!("prefilter-summary fonts={} shapes={} nontrivial={} diffs={} stale={}", used, shapes, nontrivial, diffs, stale);
